@@ -55,7 +55,8 @@ def seeded(ctx, n, length):
             x = rng.random()
             if x < 0.6:
                 ck = rng.choice(["none", "issued", "issued", "issued", "for:" + rng.choice(keys), "old:" + rng.choice(keys),
-                                 "trunc", "flip", "reenc", "otherkey", "garbage"])
+                                 "trunc", "flip", "reenc", "otherkey", "garbage",
+                                 "trunc:%d" % rng.randint(0, 40), "rand:%d" % rng.randint(0, 40)])
                 steps.append({"op": "serve", "cookie": ck, "mut": rng.choice(["none", "none", "path", "all"])})
             elif x < 0.7:
                 steps.append({"op": "remove", "k": rng.choice(keys), "v": 0})
@@ -87,6 +88,14 @@ def run(ctx, replay):
     behs = vlib.gen_tlc(ctx, "Gen_Sticky", vlib.make_cfg(spec="GSpec", constants=consts(40, depth=14), invariants=["Emit"]),
                         "gen-sticky", num=200 if quick else 2000, depth=15, seed=ctx.seed)
     scs = from_tlc(behs[:1500 if quick else 20000], ["rr", "rb"]) + seeded(ctx, 80 if quick else 800, 60 if quick else 200)
+    # malformed values of every length (truncations of an issued cookie, never-issued strings over the cookie alphabet)
+    for ci, codec in enumerate(CODECS):
+        for subject in ("rr", "rb"):
+            steps = [{"op": "upsert", "k": k, "v": 0, "w": 1} for k in "ab"] + [{"op": "serve", "cookie": "none"}]
+            for n in range(0, 48):
+                steps.append({"op": "serve", "cookie": "trunc:%d" % n})
+                steps.append({"op": "serve", "cookie": "rand:%d" % n})
+            scs.append({"id": "len-%s-%d" % (subject, ci), "cfg": {"subject": subject, "sticky": codec_str(codec), "table": ci}, "steps": steps})
     tp = vlib.run_scenarios(ctx, "rr", scs, "c11")
     res = vlib.validate_trace(ctx, "Trace_RR", tp, "c11")
     trs = vlib.scenario_traces(tp)
